@@ -237,43 +237,49 @@ def activesOf : List (String × List Token) → Nat → List Active
     let restLen := (rest.map (·.2.length)).sum
     ⟨.file n, a + restLen⟩ :: activesOf rest a
 
+/-- what the import directive names (`pat`, after environment replacement): the tokens to splice in and the
+import stack afterwards.  `d1` = the dispenser on the argument (for error positions), `afterLen` = number of
+tokens following the directive. -/
+def resolveImport (cfg : Cfg) (s : PState) (d1 : Disp) (pat : Bytes) (afterLen : Nat) :
+    Res (List Token × List (List Active)) :=
+  let frames := if cfg.cycleCheck then popFrames afterLen s.frames else s.frames
+  match lookupSnippet s.snippets pat with
+  | some body =>
+    if cfg.cycleCheck && importing frames (.snippet pat) then errAt "import-cycle" d1
+    else .ok (body, if cfg.cycleCheck then [⟨.snippet pat, afterLen⟩] :: frames else frames)
+  | none =>
+    match resolve cfg.fs pat with
+    | .fsError => errAt "import-fs" d1
+    | .files ms =>
+      if cfg.cycleCheck && ms.any (fun f => importing frames (.file f.1)) then errAt "import-cycle" d1
+      else
+        let imps := importFiles ms
+        .ok (imps.flatMap (·.2),
+          if cfg.cycleCheck then
+            (match activesOf imps afterLen with
+             | [] => frames
+             | f => f :: frames)
+          else frames)
+
 /-- `doImport` -/
 def doImport (cfg : Cfg) (s : PState) : Res PState :=
-  let (ok, d1) := s.d.nextArg
-  if !ok then argErr s.d
+  let r := s.d.nextArg
+  if !r.1 then argErr s.d
   else
-    (envR cfg d1.val).bind fun pat =>
-    if pat.isEmpty then errAt "import-empty" d1
+    (envR cfg r.2.val).bind fun pat =>
+    if pat.isEmpty then errAt "import-empty" r.2
     else
-      let (ok2, d2) := d1.nextArg
-      if ok2 then errAt "import-many" d2
+      let r2 := r.2.nextArg
+      if r2.1 then errAt "import-many" r2.2
       else
-        let c := d1.cursor
-        if c - 1 < 0 ∨ c + 1 > d1.len then .panic "doImport: slice bounds out of range"
+        let c := r.2.cursor
+        -- tokensBefore := p.tokens[:p.cursor-1] ; tokensAfter := p.tokens[p.cursor+1:]
+        if c - 1 < 0 ∨ c + 1 > r.2.len then .panic "doImport: slice bounds out of range"
         else
-          let before := d1.tokens.take (c - 1).toNat
-          let after := d1.tokens.drop (c + 1).toNat
-          let frames := if cfg.cycleCheck then popFrames after.length s.frames else s.frames
-          match lookupSnippet s.snippets pat with
-          | some body =>
-            if cfg.cycleCheck && importing frames (.snippet pat) then errAt "import-cycle" d1
-            else
-              let frames' := if cfg.cycleCheck then [⟨.snippet pat, after.length⟩] :: frames else frames
-              .ok { s with d := { d1 with tokens := before ++ body ++ after, cursor := c - 1 }, frames := frames' }
-          | none =>
-            match resolve cfg.fs pat with
-            | .fsError => errAt "import-fs" d1
-            | .files ms =>
-              if cfg.cycleCheck && ms.any (fun f => importing frames (.file f.1)) then errAt "import-cycle" d1
-              else
-                let imps := importFiles ms
-                let imported := imps.flatMap (·.2)
-                let frames' := if cfg.cycleCheck then
-                    (match activesOf imps after.length with
-                     | [] => frames
-                     | f => f :: frames)
-                  else frames
-                .ok { s with d := { d1 with tokens := before ++ imported ++ after, cursor := c - 1 }, frames := frames' }
+          let before := r.2.tokens.take (c - 1).toNat
+          let after := r.2.tokens.drop (c + 1).toNat
+          (resolveImport cfg s r.2 pat after.length).bind fun imp =>
+            .ok { s with d := { r.2 with tokens := before ++ imp.1 ++ after, cursor := c - 1 }, frames := imp.2 }
 
 def back (s : PState) : PState := { s with d := s.d.setCursor (s.d.cursor - 1) }
 
@@ -282,36 +288,32 @@ def validDirective (cfg : Cfg) (dir : Bytes) : Bool :=
   | none => true
   | some l => l.contains dir
 
-/-- the body of `directive()` after the directive token was recorded -/
+/-- `p.tokens[p.cursor].Text = replaceEnvVars(p.tokens[p.cursor].Text); p.block.Tokens[dir] = append(…, p.tokens[p.cursor])` -/
+def appendCur (cfg : Cfg) (dir : Bytes) (s : PState) : Res PState :=
+  match s.d.tok? s.d.cursor with
+  | none => .panic "directive: index out of range"
+  | some t =>
+    (envR cfg t.text).bind fun txt =>
+      .ok { s with d := { s.d with tokens := s.d.tokens.set s.d.cursor.toNat { t with text := txt } },
+                   btoks := addTok s.btoks dir { t with text := txt } }
+
+/-- the loop of `directive()` after the directive token was recorded -/
 def directiveLoop (cfg : Cfg) (dir : Bytes) : Nat → PState → Nat → Res PState
   | 0, _, _ => .timeout
   | fuel + 1, s, nesting =>
-    let (ok, d1) := s.d.next
-    if !ok then
-      if nesting > 0 then errAt "eof" d1 else .ok s
+    let r := s.d.next
+    if !r.1 then
+      if nesting > 0 then errAt "eof" r.2 else .ok s
     else
-      let s1 := { s with d := d1 }
-      let v := d1.val
-      -- the if / else-if chain of the Go loop; `some n` = fall through to the append with nesting n
-      let step : Res (Option Nat ⊕ PState) :=
-        if v == lbrace then .ok (.inl (some (nesting + 1)))
-        else if d1.isNewLine && nesting == 0 then .ok (.inl none)
-        else if v == rbrace && nesting > 0 then .ok (.inl (some (nesting - 1)))
-        else if v == rbrace && nesting == 0 then errAt "unexpected-close" d1
-        else if v == sImport && d1.isNewLine then (doImport cfg s1).bind fun s2 => .ok (.inr (back s2))
-        else .ok (.inl (some nesting))
-      step.bind fun r =>
-        match r with
-        | .inr s2 => directiveLoop cfg dir fuel s2 nesting
-        | .inl none => .ok (back s1)       -- read too far (nesting is 0 here)
-        | .inl (some n) =>
-          match d1.tok? d1.cursor with
-          | none => .panic "directive: index out of range"
-          | some t =>
-            (envR cfg t.text).bind fun txt =>
-            let t' := { t with text := txt }
-            let d2 := { d1 with tokens := d1.tokens.set d1.cursor.toNat t' }
-            directiveLoop cfg dir fuel { s1 with d := d2, btoks := addTok s1.btoks dir t' } n
+      let s1 := { s with d := r.2 }
+      let v := r.2.val
+      if v == lbrace then (appendCur cfg dir s1).bind fun s2 => directiveLoop cfg dir fuel s2 (nesting + 1)
+      else if r.2.isNewLine && nesting == 0 then .ok (back s1)                       -- read too far
+      else if v == rbrace && nesting > 0 then (appendCur cfg dir s1).bind fun s2 => directiveLoop cfg dir fuel s2 (nesting - 1)
+      else if v == rbrace && nesting == 0 then errAt "unexpected-close" r.2
+      else if v == sImport && r.2.isNewLine then
+        (doImport cfg s1).bind fun s2 => directiveLoop cfg dir fuel (back s2) nesting
+      else (appendCur cfg dir s1).bind fun s2 => directiveLoop cfg dir fuel s2 nesting
 
 /-- `directive()` -/
 def directive (cfg : Cfg) (fuel : Nat) (s : PState) : Res PState :=
@@ -326,15 +328,22 @@ def directive (cfg : Cfg) (fuel : Nat) (s : PState) : Res PState :=
 def directives (cfg : Cfg) : Nat → PState → Res PState
   | 0, _ => .timeout
   | fuel + 1, s =>
-    let (ok, d1) := s.d.next
-    if !ok then .ok s
+    let r := s.d.next
+    if !r.1 then .ok s
     else
-      let s1 := { s with d := d1 }
-      if d1.val == rbrace then .ok s1
-      else if d1.val == sImport then (doImport cfg s1).bind fun s2 => directives cfg fuel (back s2)
+      let s1 := { s with d := r.2 }
+      if r.2.val == rbrace then .ok s1
+      else if r.2.val == sImport then (doImport cfg s1).bind fun s2 => directives cfg fuel (back s2)
       else (directive cfg (fuel + 1) s1).bind fun s2 => directives cfg fuel s2
 
-/-- `addresses()`; the answer's Bool is "stop: EOF seen" bookkeeping via `eof` -/
+/-- one address token: the keys and the "expecting another" flag afterwards.
+`tkn[len(tkn)-1]` sits behind `tkn != ""`. -/
+def addKey (keys : List Bytes) (expecting : Bool) (tkn : Bytes) : List Bytes × Bool :=
+  if tkn.isEmpty then (keys, expecting)
+  else if tkn.getLast? == some 0x2C then (keys ++ [tkn.dropLast], true)
+  else (keys ++ [tkn], false)
+
+/-- `addresses()` -/
 def addresses (cfg : Cfg) : Nat → PState → Bool → Res PState
   | 0, _, _ => .timeout
   | fuel + 1, s, expecting =>
@@ -343,17 +352,13 @@ def addresses (cfg : Cfg) : Nat → PState → Bool → Res PState
     else if tkn == lbrace then
       if expecting then errAt "expected-another-address" s.d else .ok s
     else
-      -- `tkn[len(tkn)-1]` is behind `tkn != ""`
-      let (keys, expecting') :=
-        if tkn.isEmpty then (s.keys, expecting)
-        else if tkn.getLast? == some 0x2C then (s.keys ++ [tkn.dropLast], true)
-        else (s.keys ++ [tkn], false)
-      let (hasNext, d1) := s.d.next
-      let s1 := { s with d := d1, keys := keys }
-      if expecting' && !hasNext then errAt "eof" d1
-      else if !hasNext then .ok { s1 with eof := true }
-      else if !expecting' && d1.isNewLine then .ok s1
-      else addresses cfg fuel s1 expecting'
+      let ke := addKey s.keys expecting tkn
+      let r := s.d.next
+      let s1 := { s with d := r.2, keys := ke.1 }
+      if ke.2 && !r.1 then errAt "eof" r.2
+      else if !r.1 then .ok { s1 with eof := true }
+      else if !ke.2 && r.2.isNewLine then .ok s1
+      else addresses cfg fuel s1 ke.2
 
 def lparen : UInt8 := 0x28
 def rparen : UInt8 := 0x29
@@ -372,16 +377,16 @@ def isSnippet (keys : List Bytes) : Option Bytes :=
 def snippetLoop : Nat → PState → Nat → List Token → Res (PState × List Token)
   | 0, _, _, _ => .timeout
   | fuel + 1, s, count, acc =>
-    let (ok, d1) := s.d.next
-    if !ok then
-      if count != 0 then errAt "syntax-close" d1 else .ok (s, acc)
+    let r := s.d.next
+    if !r.1 then
+      if count != 0 then errAt "syntax-close" r.2 else .ok (s, acc)
     else
-      let s1 := { s with d := d1 }
-      let count1 := if d1.val == rbrace then count - 1 else count
-      if d1.val == rbrace && count1 == 0 then .ok (s1, acc)
+      let s1 := { s with d := r.2 }
+      let count1 := if r.2.val == rbrace then count - 1 else count
+      if r.2.val == rbrace && count1 == 0 then .ok (s1, acc)
       else
-        let count2 := if d1.val == lbrace then count1 + 1 else count1
-        match d1.tok? d1.cursor with
+        let count2 := if r.2.val == lbrace then count1 + 1 else count1
+        match r.2.tok? r.2.cursor with
         | none => .panic "snippetTokens: index out of range"
         | some t => snippetLoop fuel s1 count2 (acc ++ [t])
 
@@ -407,18 +412,18 @@ def begin (cfg : Cfg) (fuel : Nat) (s : PState) : Res PState :=
       | some name =>
         if (lookupSnippet s1.snippets name).isSome then errAt "snippet-redeclared" s1.d
         else
-          (snippetTokens fuel s1).bind fun (s2, toks) =>
-            .ok { s2 with snippets := s2.snippets ++ [(name, toks)], keys := [] }
+          (snippetTokens fuel s1).bind fun st =>
+            .ok { st.1 with snippets := st.1.snippets ++ [(name, st.2)], keys := [] }
       | none => blockContents cfg fuel s1
 
 /-- `parseAll()` -/
 def parseAll (cfg : Cfg) : Nat → PState → List ServerBlock → Res (List ServerBlock)
   | 0, _, _ => .timeout
   | fuel + 1, s, blocks =>
-    let (ok, d1) := s.d.next
-    if !ok then .ok blocks
+    let r := s.d.next
+    if !r.1 then .ok blocks
     else
-      (begin cfg (fuel + 1) { s with d := d1, keys := [], btoks := [] }).bind fun s1 =>
+      (begin cfg (fuel + 1) { s with d := r.2, keys := [], btoks := [] }).bind fun s1 =>
         parseAll cfg fuel s1 (if s1.keys.isEmpty then blocks else blocks ++ [⟨s1.keys, s1.btoks⟩])
 
 /-- `Parse` over already lexed tokens -/
